@@ -65,7 +65,7 @@ class C02(Prop):
     title = "Compiling any source text is safe and leaves the compiler reusable"
     lean_modules = ["NV.C02.Props", "NV.C02.Witness"]
     theorems = ["NV.C02.table_writes_in_bounds", "NV.C02.table_cursors_in_allocation", "NV.C02.mem_block_fits",
-                "NV.C02.include_depth_bounded", "NV.C02.include_stack_empty_after_end", "NV.C02.yytext_in_bounds",
+                "NV.C02.include_depth_bounded", "NV.C02.include_stack_empty_after_end", "NV.C02.lexer_flag_clear_after_start", "NV.C02.yytext_in_bounds",
                 "NV.C02.idents_restored", "NV.C02.locals_reset_after_cleanup"]
     witness_theorems = []
     consts = [("maxline", "MAXLINE"), ("defmax", "DEFMAX"), ("startBlockSize", "START_BLOCK_SIZE"),
